@@ -45,7 +45,8 @@ def cluster_products():
 
 
 def nd_index_terms():
-    leaves = [A_, B, T3, ('insertaxis', (0, 2), A_), ('diagonalize', (0, 1), a), ('multiply', (), A_, A_), ('exp', (), T3)]
+    leaves = [A_, B, T3, ('insertaxis', (0, 2), A_), ('diagonalize', (0, 1), a), ('multiply', (), A_, A_), ('exp', (), T3),
+              ('insertaxis', (0, 4), A_), ('insertaxis', (0, 3), A_), ('insertaxis', (0, 8), T3)]   # an axis as long as the inflated one: takediag over (other, inflated)
     l1 = list(T.grow(leaves, [], {'inflatend', 'takend'}, binary=False))
     l2 = list(T.grow(l1, [A_], {'inflatend', 'takend', 'sum', 'transpose', 'multiply', 'add', 'takediag', 'ravel', 'unravel', 'insertaxis'}))
     return l1 + l2
